@@ -465,7 +465,8 @@ def run(ctx):
     kmarshal(ctx, mcases, res)
     # K-jinja on the record member loops
     frags = [{'gen': 'cpp', 'template': 'header/record.jinja2.hpp', 'attr': 'fields', 'index': i, 'decl_class': 'Record'} for i in range(3)] + \
-            [{'gen': 'java', 'template': 'record.jinja2.java', 'attr': 'fields', 'index': i, 'decl_class': 'Record'} for i in range(4)]
+            [{'gen': 'java', 'template': 'record.jinja2.java', 'attr': 'fields', 'index': i, 'decl_class': 'Record'} for i in range(4)] + \
+            [{'gen': 'cpp', 'template': 'header/interface.jinja2.hpp', 'attr': 'methods', 'index': 0, 'decl_class': 'Interface'}]
     jc = [{'files': f, 'root': list(f)[0], 'options': opts, 'fragments': frags} for f in progs[:ctx.n(12, 60)]]
     mism, flat = kjinja.run(ctx, 'c02', jc)
     if flat is not None:
